@@ -49,7 +49,7 @@ def violation(res, sig, what, inp):
         res.violations.append({"signature": sig, "what": what, "input": inp})
 
 
-WITH_HYPS = {"PiBas", "PiPack", "SSE2", "PiPtr", "ANSS16", "CT14", "SSE1"}
+WITH_HYPS = {"PiBas", "PiPack", "SSE2", "PiPtr", "ANSS16", "CT14", "SSE1", "Pi2Lev"}
 
 
 def case_from_replay(rp):
